@@ -173,7 +173,10 @@ def run_sim_sequence(case):
 
 
 def gen_sim_sequence(rng):
-    base = simcases.gen_case(rng, "fast_SIR", nmax=8, buggify=False, allow_rho=False, horizon="finite", selfloops=0.35)
+    base = simcases.gen_case(rng, "fast_SIR", nmax=8, buggify=False, allow_rho=False, horizon="finite", selfloops=0.35,
+                             directed=rng.random() < 0.25)
+    if rng.random() < 0.25:
+        base["gamma"] = 0.0        # degenerate rate: some helpers take shortcuts for it
     spec = base["graph"]
     # every attribute any simulator may be asked for
     for e in spec["edges"]:
@@ -362,6 +365,14 @@ def one_ode_arrays(case):
     args = [own(a) for a in cap["a"]]
     kwargs = {k: own(v) for k, v in cap["k"].items()}
     fn = getattr(AN, direct)
+    if direct in ("SIS_pair_based", "SIR_pair_based") and case.get("pair_full") and kwargs.get("Y0") is not None \
+            and kwargs.get("XY0") is None:
+        # the optional pair arrays, given as the natural full outer products (non-zero also for pairs
+        # that are not edges; the solver restricts them to edges itself)
+        Y0 = np.asarray(kwargs["Y0"], dtype=float)
+        X0 = np.asarray(kwargs["X0"], dtype=float) if kwargs.get("X0") is not None else 1.0 - Y0
+        kwargs["XY0"] = np.outer(X0, Y0)
+        kwargs["XX0"] = np.outer(X0, X0)
     pnames = list(inspect.signature(fn).parameters)
     pool = {}
     for i, a in enumerate(args):
@@ -407,7 +418,8 @@ def gen_ode_case(rng, entry_list):
     R0 = idx[len(I0):len(I0) + 1] if rng.random() < 0.4 else []
     return {"graph": spec, "entry": rng.choice(entry_list), "tau": rng.choice([0.3, 0.7, 1.3]), "gamma": rng.choice([0.3, 1.0]),
             "p": rng.choice([0.2, 0.5]), "rho": rng.choice([0.1, 0.3]), "I0": I0, "R0": R0, "use_sets": rng.random() < 0.6,
-            "tmax": rng.choice([1.0, 3.0]), "tcount": rng.choice([4, 11]), "full": rng.random() < 0.5}
+            "tmax": rng.choice([1.0, 3.0]), "tcount": rng.choice([4, 11]), "full": rng.random() < 0.5,
+            "pair_full": rng.random() < 0.6}
 
 
 def run_one(family, rng, idx, tier):
